@@ -1,5 +1,5 @@
 // Harness over the cross-slice allocation loop lifted from src/dev/alloc.rs::try_allocate_from.
-// @module-needs env header seg:T0
+// @module-needs env header seg:T0 seg:AC
 #![allow(dead_code, unused_imports)]
 use super::*;
 use crate::dev::verif_env::*;
@@ -87,6 +87,70 @@ fn c08_fragment_retry() {
     kani::cover!(env.count(K_FREE) == 2, "fragment found and given back");
     kani::cover!(matches!(r, Ok(None)));
     kani::cover!(env.count(K_TRYALLOC) >= 1 && HostCluster(host).rb_slice_host_end(&env.info) == HostCluster(host).rb_host_end(&env.info), "starts in the last slice of its refcount block");
+    core::mem::forget(r);
+    core::mem::forget(env);
+}
+
+// @harness c08_allocate_clusters_loop
+// @props C08 C12
+// @tier quick
+// @cost 60
+// @timeout 900
+// @needs AC
+// @desc the whole body of allocate_clusters (try_allocate_from replaced by its contract; the first k refcount blocks are full): it starts at the free hint, advances to the START of the next refcount block each time a block is full (so it terminates and never skips a block), returns exactly what the allocator step granted, and moves the free hint UP only for single-cluster requests -- to just behind the granted cluster, never down -- and leaves it alone for multi-cluster requests
+// @bounds 0..=2 full refcount blocks before the one that grants; request of 1..=4 clusters; any hint below 2^40; 64 KiB clusters, 16-bit refcounts
+// @funcs Qcow2Dev::allocate_clusters (whole body) HostCluster::rb_host_end
+// @stub alloc::fmt::format -> String::new()
+// @assume try_allocate_from behaves as its contract (a run inside the refcount block it is asked about)
+#[kani::proof]
+#[kani::unwind(5)]
+#[kani::stub(std::fmt::format, fmt_stub2)]
+fn c08_allocate_clusters_loop() {
+    let cb = 16u32;
+    let info = mk_info(cb, 4, 1u64 << 42, 9, Some((10, 2048)), Some((9, 1024)), false, false, false);
+    let env = KEnv::new(info);
+    let cs = 1u64 << cb;
+    let hint: u64 = kani::any();
+    kani::assume(hint & (cs - 1) == 0 && hint >> 40 == 0);
+    env.free_cluster_offset.store(hint, Ordering::Relaxed);
+    let full: usize = kani::any();
+    kani::assume(full <= 2);
+    env.passes_left.set(full);
+    let count: usize = kani::any();
+    kani::assume(count >= 1 && count <= 4);
+    let r = env.seg_ac(count);
+    let span = cs << spec::rb_bits(cb, 4); // host bytes one refcount block describes
+    let n = env.nrec.get();
+    assert!(n == full + 1);
+    // block by block, each from the start of the next block
+    let mut k = 0;
+    while k < 3 {
+        if k < n {
+            let e = env.get_rec(k);
+            assert!(e.kind == K_TRYFROM && e.len == count);
+            if k == 0 {
+                assert!(e.off == hint);
+            } else {
+                assert!(e.off == ((hint / span) + k as u64) * span);
+            }
+        }
+        k += 1;
+    }
+    match &r {
+        Ok(Some((off, got))) => {
+            assert!(*got >= 1 && *got <= count);
+            let new_hint = env.free_cluster_offset.load(Ordering::Relaxed);
+            assert!(new_hint >= hint); // an allocation never moves the hint down
+            if count == 1 {
+                assert!(new_hint == core::cmp::max(hint, *off + cs));
+            } else {
+                assert!(new_hint == hint);
+            }
+        }
+        _ => assert!(false),
+    }
+    kani::cover!(full == 2 && count == 1);
+    kani::cover!(full == 0 && count == 4);
     core::mem::forget(r);
     core::mem::forget(env);
 }
